@@ -8,6 +8,7 @@ package checks
 import (
 	"encoding/json"
 	"fmt"
+	"math"
 	"time"
 
 	"github.com/bmeg/grip/engine/queue"
@@ -120,6 +121,63 @@ func c13Scenarios(tier string) []schedScenario {
 					for t := range o {
 						vs.Obs(fmt.Sprint(t.GetCount()))
 						vs.PreRecv(o, "harness:unmarshal-out")
+					}
+				}})
+		}
+	}
+	// ---- serializer pools with one record that cannot be (de)serialised: it still occupies its slot (an
+	// empty result), so every later record keeps its position - a worker that skips it runs a round ahead
+	for _, nw := range []int{2, 3} {
+		for _, bad := range []int{0, 1} {
+			nw, bad := nw, bad
+			n := 2*nw + 1
+			want := seq(n)
+			want[bad] = "0"
+			out = append(out, schedScenario{Name: fmt.Sprintf("UnmarshalStream/workers=%d/N=%d/torn-line-at-%d", nw, n, bad), Class: "unmarshal-bad-record", Ordered: true, Want: want, Bound: -1, CapMap: small, Budget: 120 * time.Second,
+				Body: func() {
+					in := vs.NewChan(make(chan []byte, 2))
+					vs.Go(func() {
+						for i := 0; i < n; i++ {
+							b, _ := json.Marshal(trav(i))
+							if i == bad {
+								b = b[:len(b)/2] // a torn line, as after a crash in the middle of a write
+							}
+							vs.PreSend(in, "harness:unmarshal-in")
+							in <- b
+						}
+						vs.PreClose(in, "harness:unmarshal-close")
+						close(in)
+					})
+					o := jobstorage.UnmarshalStream(in, nw)
+					vs.PreRecv(o, "harness:unmarshal-out")
+					for t := range o {
+						vs.Obs(fmt.Sprint(t.GetCount()))
+						vs.PreRecv(o, "harness:unmarshal-out")
+					}
+				}})
+			out = append(out, schedScenario{Name: fmt.Sprintf("MarshalStream/workers=%d/N=%d/unserialisable-at-%d", nw, n, bad), Class: "marshal-bad-record", Ordered: true, Want: want, Bound: -1, CapMap: small, Budget: 120 * time.Second,
+				Body: func() {
+					in := vs.NewChan(make(chan gdbi.Traveler, 2))
+					vs.Go(func() {
+						for i := 0; i < n; i++ {
+							var t gdbi.Traveler = trav(i)
+							if i == bad {
+								// encoding/json refuses NaN
+								t = &gdbi.BaseTraveler{Count: uint32(i + 1), Current: &gdbi.DataElement{ID: "v", Label: "L", Data: map[string]interface{}{"x": math.NaN()}, Loaded: true}}
+							}
+							vs.PreSend(in, "harness:marshal-in")
+							in <- t
+						}
+						vs.PreClose(in, "harness:marshal-close")
+						close(in)
+					})
+					o := jobstorage.MarshalStream(in, nw)
+					vs.PreRecv(o, "harness:marshal-out")
+					for b := range o {
+						t := &gdbi.BaseTraveler{}
+						json.Unmarshal(b, t)
+						vs.Obs(fmt.Sprint(t.Count))
+						vs.PreRecv(o, "harness:marshal-out")
 					}
 				}})
 		}
